@@ -648,12 +648,25 @@ func (rw *rewriter) lockCall(ce *ast.CallExpr) (recv ast.Expr, method string, ok
 	default:
 		return
 	}
-	if len(s.Index()) != 1 {
-		fmt.Fprintf(os.Stderr, "instrument: warning: promoted lock method at %s left alone\n", rw.fset.Position(ce.Pos()))
-		return
-	}
 	recv = sel.X
 	t := rw.info.TypeOf(recv)
+	if idx := s.Index(); len(idx) != 1 {
+		// a promoted method (a struct that embeds sync.Mutex / sync.RWMutex,
+		// seeded change C02-n1): the receiver is the embedded field, reached
+		// along the selection's index path
+		for _, i := range idx[:len(idx)-1] {
+			if p, isPtr := t.(*types.Pointer); isPtr {
+				t = p.Elem()
+			}
+			st, isSt := t.Underlying().(*types.Struct)
+			if !isSt || i >= st.NumFields() {
+				fmt.Fprintf(os.Stderr, "instrument: warning: promoted lock method at %s left alone\n", rw.fset.Position(ce.Pos()))
+				return nil, "", false
+			}
+			recv = &ast.SelectorExpr{X: recv, Sel: ast.NewIdent(st.Field(i).Name())}
+			t = st.Field(i).Type()
+		}
+	}
 	if _, isPtr := t.(*types.Pointer); !isPtr {
 		if _, isIface := t.Underlying().(*types.Interface); !isIface {
 			recv = &ast.UnaryExpr{Op: token.AND, X: recv}
